@@ -159,6 +159,7 @@ def check(run, prog, tier):
                f.file, n.get("l"), f.name)
 
     # ---- C20-b
+    C20_EFF = [None]
     geo_callers = sorted({f.name for f in funcs for _ in f.calls("get_empty_object")})
     run.ob("C20-b", "creators", set(geo_callers) <= {"load_object", "clone_object"} and bool(geo_callers),
            "get_empty_object called from %s" % geo_callers, None, None, None,
@@ -207,6 +208,38 @@ def check(run, prog, tier):
                        "every path to %s crosses the euid gate or a listed bypass (%s)" % (tname, sorted({w for _, _, w in pass_edges})) if ok
                        else "path %s reaches %s without the euid test" % (p, tname),
                        f.file, n.get("l"), fname, what="%s reaches %s without testing the caller's euid" % (fname, tname))
+        # the gate is fresh: no call that runs LPC code (which can make the caller seteuid(0)) lies between the last
+        # euid test and the creation; a path from such a call to the target has to cross the gate again
+        if C20_EFF[0] is None:
+            import callgraph as _cgm
+            _cg = _cgm.CallGraph(prog)
+            C20_EFF[0] = (_cg, _cg.reaches(_cgm.LPC_SEEDS | {"<unknown>"}, barriers={"fatal"} | _cgm.RAISE_SEEDS),
+                          _cg.reaches(_cgm.LPC_SEEDS | {"<unknown>"}, barriers={"fatal", "apply_master_ob", "safe_apply_master_ob"} | _cgm.RAISE_SEEDS))
+        _cg, returning_lpc, returning_lpc_user = C20_EFF[0]
+        for tname in targets:
+            for j, (b, i, n) in enumerate(list(f.calls(tname))):
+                stale = None
+                for b0, i0, n0 in f.calls():
+                    if n0 is n or n0.get("fn") in ("error", "fatal") or not (_cg.callees_of_call(f, n0) & returning_lpc):
+                        continue
+                    if b0.id == b.id:
+                        if i0 < i:
+                            stale = (n0.get("fn"), n0.get("l"), [b.id], bool(_cg.callees_of_call(f, n0) & returning_lpc_user))
+                        continue
+                    p2 = f.reach_avoiding([sx for sx in f.blocks[b0.id].live_succ() if (b0.id, sx) not in pe], lambda blk, bb=b.id: blk.id == bb, avoid_edges=pe, avoid_blocks=[b0.id])
+                    # only calls that lie after the gate matter: the path must not need to pass the gate to get to b0 either
+                    if p2 is not None:
+                        strong = bool(_cg.callees_of_call(f, n0) & returning_lpc_user)
+                        if stale is None or (strong and not stale[3]):
+                            stale = (n0.get("fn"), n0.get("l"), p2[:8], strong)
+                        if strong:
+                            break
+                if not gate_found:
+                    continue
+                run.ob("C20-b", "fresh-gate:%s:%s:%d" % (fname, tname, j), True if stale is None else (False if stale[3] else None),
+                       "no LPC-running call lies between the euid test and %s()" % tname if stale is None else
+                       ("" if stale[3] else "(only a master hook runs in between: not decided) ") + "%s() at line %s runs LPC code (it can make the caller seteuid(0)) and %s() at line %s is then reached (path %s) without testing the euid again" % (stale[0], stale[1], tname, n.get("l"), stale[2]),
+                       f.file, n.get("l"), fname, what="%s creates an object after LPC code ran since the caller's euid was last tested" % fname)
         # the failing edge of the euid test leads to error() (possibly via the master exemption)
         for bid in f.reachable():
             blk = f.blocks[bid]
